@@ -94,6 +94,10 @@ package performance
 //@   modifies portfolioFlows, performance
 //@   ensures [C20] @reset: result == nil && portfolioFlows == 0.0 && performance != nil && (d.Performance != nil ==> performance == d.Performance) && (d.Performance == nil ==> fresh(performance))
 //
+// ComputeFlows, per transaction, is NOT under contract: it hands the addresses of the record's map fields
+// (&performance.Inflow, ...) to a helper, which the engine's memory model does not support (no first-class
+// pointers to struct fields holding maps). A reported defect there - `--commodity` filters the values but not
+// the flows - is therefore not decided by this machinery (DESIGN 11.8).
 //@ func (*Calculator).ComputeFlows$3
 //@   requires d != nil && performance != nil
 //@   modifies performance.PortfolioInflow, performance.PortfolioOutflow, d.Performance
